@@ -74,6 +74,12 @@ def transform_to_bounded_jac(jac, lower_bound, upper_bound):
     return bounded_jac
 
 
+def _bracket_tol(tol, a, b):
+    """Width at which a bracket counts as converged: the requested tolerance, but never
+    less than the spacing of floating point numbers at the bracket."""
+    return D.ar_numpy.maximum(tol, D.epsilon(a.dtype) * D.ar_numpy.maximum(D.ar_numpy.abs(a), D.ar_numpy.abs(b)))
+
+
 def brentsroot(f, bounds, tol=None, verbose=False, return_interval=False):
     """Brent's algorithm for finding root of a bracketed function.
 
@@ -163,13 +169,13 @@ def brentsroot(f, bounds, tol=None, verbose=False, return_interval=False):
         if D.ar_numpy.abs(fa) < D.ar_numpy.abs(fb):
             a, b = b, a
             fa, fb = fb, fa
-        conv = (fb == 0 or fs == 0 or D.ar_numpy.abs(b - a) < tol)
+        conv = (fb == 0 or fs == 0 or D.ar_numpy.abs(b - a) <= _bracket_tol(tol, a, b))
         if numiter >= 64:
             break
     if verbose:
         with numpy.printoptions(precision=17, linewidth=200):
             print(f"[{numiter}] a={D.ar_numpy.to_numpy(a)}, b={D.ar_numpy.to_numpy(b)}, f(a)={D.ar_numpy.to_numpy(fa)}, f(b)={D.ar_numpy.to_numpy(fb)}")
-    success = D.ar_numpy.abs(f(b)) <= tol or (fa * fb <= 0 and D.ar_numpy.abs(b - a) < tol)
+    success = D.ar_numpy.abs(f(b)) <= tol or (fa * fb <= 0 and D.ar_numpy.abs(b - a) <= _bracket_tol(tol, a, b))
     if return_interval:
         return b, success, (a, b)
     else:
@@ -307,10 +313,10 @@ def brentsrootvec(f, bounds, tol=None, verbose=False, return_interval=False, acc
         a[mask], b[mask] = b[mask], a[mask]
         fa[mask], fb[mask] = fb[mask], fa[mask]
 
-        conv = D.ar_numpy.logical_not(D.ar_numpy.logical_or(D.ar_numpy.logical_or(fb == 0, fs == 0), D.ar_numpy.abs(b - a) < tol))
+        conv = D.ar_numpy.logical_not(D.ar_numpy.logical_or(D.ar_numpy.logical_or(fb == 0, fs == 0), D.ar_numpy.abs(b - a) <= _bracket_tol(tol, a, b)))
         conv = conv & (numiter < 64)
         not_conv = D.ar_numpy.logical_not(conv)
-        true_conv = (D.ar_numpy.abs(fb) <= tol) | ((fa * fb <= 0) & (D.ar_numpy.abs(b - a) < tol))
+        true_conv = (D.ar_numpy.abs(fb) <= tol) | ((fa * fb <= 0) & (D.ar_numpy.abs(b - a) <= _bracket_tol(tol, a, b)))
 
     if verbose:
         with numpy.printoptions(precision=17, linewidth=200):
